@@ -1444,6 +1444,17 @@ impl PeerConnection {
             None
         };
 
+        // A changed fingerprint after DTLS start is refused. Check it before the
+        // re-INVITE parameters, the signaling state transition and the remote
+        // description are applied, so that the refused call changes nothing.
+        if self.inner.dtls_transport.lock().is_some()
+            && *self.inner.remote_dtls_fingerprint.lock() != remote_dtls_fingerprint
+        {
+            return Err(RtcError::InvalidState(
+                "changing remote DTLS fingerprint after transport start is not supported".into(),
+            ));
+        }
+
         let previous_remote = self.inner.remote_description.lock().clone();
         let media_parameters_changed = previous_remote.as_ref().is_none_or(|previous| {
             previous.session.connection != desc.session.connection
